@@ -522,9 +522,9 @@ func (p Parameters) MaxBit(levelQ, levelP int) (c int) {
 // If levelP > 0 or Base2Decomposition == 0, then returns 1 for all qi.
 func (p Parameters) BaseTwoDecompositionVectorSize(levelQ, levelP, Base2Decomposition int) (base []int) {
 
-	logqi := p.LogQi()
+	qi := p.Q()
 
-	base = make([]int, len(logqi))
+	base = make([]int, len(qi))
 
 	if Base2Decomposition == 0 || levelP > 0 {
 		for i := range base {
@@ -532,7 +532,9 @@ func (p Parameters) BaseTwoDecompositionVectorSize(levelQ, levelP, Base2Decompos
 		}
 	} else {
 		for i := range base {
-			base[i] = (logqi[i] + Base2Decomposition - 1) / Base2Decomposition
+			// The digits must cover the bit-length of qi (and not its rounded log2,
+			// which is one bit short for primes in ]2^k, 2^k*sqrt(2)[).
+			base[i] = (bits.Len64(qi[i]) + Base2Decomposition - 1) / Base2Decomposition
 		}
 	}
 
